@@ -204,6 +204,8 @@ def run(outcome, tier, seed):
     outcome.rule = ("token sequences: every sequence up to the stated length, slice vs reader (non-trivial = translates successfully to a "
                     "non-empty output); sessions: each (input, source selection, target, schedule) comparison of slice with reader")
     run_tokens(outcome, tier, seed)
+    if outcome.hooks_available:
+        shared.msgpack_correspondence(outcome, tier, seed)
     run_sessions(outcome, tier, seed)
     # every listed finding: does its witness still reproduce?
     for k in common.load_known("C02"):
